@@ -164,6 +164,17 @@ package lfs
 //@   modifies fresh
 //@   ensures p.Size == 0 ==> result == ""
 //@   ensures @def p.Size != 0 ==> result == penc(p)
+// The text of a pointer: the version line, one line per extension, the oid
+// line and the size line, written in this order into an empty buffer whose
+// content is the result; only a pointer of size 0 encodes as the empty text.
+//@   ensures @C07 result == "" ==> p.Size == 0
+//@   at call (*bytes.Buffer).WriteString:1 assert @C07 wbytes(arg0__) == "" && arg1__ == scat(scat("version ", "https://git-lfs.github.com/spec/v1"), "\n")
+//@   at call (*bytes.Buffer).WriteString:2 assert @C07 arg1__ == scat(scat(scat(scat(scat(scat(scat(scat("ext-", str_of_int(ext.Priority)), "-"), ext.Name), " "), ext.OidType), ":"), ext.Oid), "\n")
+//@   at call (*bytes.Buffer).WriteString:3 assert @C07 arg1__ == scat(scat(scat(scat("oid ", p.OidType), ":"), p.Oid), "\n")
+//@   at call (*bytes.Buffer).WriteString:4 assert @C07 arg1__ == scat(scat("size ", str_of_int(p.Size)), "\n")
+//@   loop 1 invariant str_hasprefix(wbytes(&buffer), scat(scat("version ", "https://git-lfs.github.com/spec/v1"), "\n"))
+//@   ensures @C07 p.Size != 0 ==> str_hasprefix(result, scat(scat("version ", "https://git-lfs.github.com/spec/v1"), "\n"))
+//@   ensures @C07 p.Size != 0 ==> str_hassuffix(result, scat(scat("size ", str_of_int(p.Size)), "\n"))
 
 //@ func NewPointer
 //@   props C07
